@@ -761,7 +761,8 @@ impl LockFreeMemoryPool {
                 thread::sleep(Duration::from_micros(retry_count as u64));
             },
             BackoffStrategy::Exponential { max_delay_us } => {
-                let delay = std::cmp::min(1u64 << retry_count, max_delay_us);
+                // 2^retry_count saturates: from the 64th lost round on the shift would overflow
+                let delay = std::cmp::min(1u64.checked_shl(retry_count).unwrap_or(u64::MAX), max_delay_us);
                 thread::sleep(Duration::from_micros(delay));
             },
         }
